@@ -1105,6 +1105,13 @@ def gen_net(r, n, tier):
                 steps += [f"c{m + 1}.127.0.0.1"] + [f"p{k}" for k in range(1, m + 2)]
                 steps += [f"c{m + 2}.127.0.0.1"] + [f"p{k}" for k in range(1, m + 3)]
                 yield f"net {variant} m{m} any {','.join(steps)}"
+    # a stalled peer (requests written, nothing read: its session sits in a blocked write and does not
+    # poll its command queue) must not disturb the server: commands are still taken, other peers are
+    # accepted and served, eviction and shutdown work (finding F17)
+    for variant_m in (4, 2):
+        yield f"net tcp m{variant_m} any c1.127.0.0.1,Z1.20000," + ",".join(["L"] * 11) + ",c2.127.0.0.1,q2,L,c3.127.0.0.1,q3,q2,S,p2,p3"
+    yield "net tcp m4 any c1.127.0.0.1,c2.127.0.0.1,Z1.20000,Z2.20000," + ",".join(["L"] * 20) + ",c3.127.0.0.1,q3,H,p3"
+    yield "net tcp m1 any c1.127.0.0.1,Z1.20000," + ",".join(["L"] * 9) + ",c2.127.0.0.1,q2,c3.127.0.0.1,q3,p2"
     for _ in range(n):
         variant = r.pick(["tcp", "tcp", "tcp", "tls", "tlsa"])
         m = r.pick([0, 1, 2, 3, 4])
